@@ -27,7 +27,7 @@ NewClient(lg, v111, http) ==
 InitO(tr) ==
     [tr |-> tr, conns |-> <<>>, ann |-> <<>>, norm |-> <<>>, keyn |-> <<>>,
      mqsubs |-> {}, mqpend |-> <<>>, handed |-> <<>>, window |-> {},
-     refetch |-> <<>>, ctrig |-> <<>>, resets |-> <<>>, thr |-> <<>>, stop |-> [l |-> 0, cause |-> "", open |-> {}], down |-> FALSE, hadStop |-> FALSE, final |-> FALSE]
+     refetch |-> <<>>, ctrig |-> <<>>, resets |-> <<>>, thr |-> <<>>, stop |-> [l |-> 0, cause |-> "", open |-> {}], down |-> FALSE, hadStop |-> FALSE, final |-> FALSE, resetObl |-> {}, keyq |-> <<>>]
 
 V(p, why, kf) == [p |-> p, tr |-> o.tr, l |-> l, why |-> why, kf |-> kf]
 
@@ -388,7 +388,8 @@ H_munsub(r) ==
     LET o1 == [o EXCEPT !.mqsubs = @ \ {r.ns}]
     IN CASE r.kind = "event" ->
                Res([o1 EXCEPT !.ann = [k \in DOMAIN o.ann |-> IF Get(o.keyn, k, "") = r.n THEN Unloaded ELSE o.ann[k]],
-                              !.window = {k \in o.window : Get(o.keyn, k, "") # r.n}],
+                              !.window = {k \in o.window : Get(o.keyn, k, "") # r.n},
+                              !.resetObl = {x \in @ : Get(o.keyn, x.key, x.key) # r.n /\ x.key # r.n}],
                    {})
          [] r.kind = "conn" /\ r.c \in DOMAIN o.conns ->
                Res(SetConn(o1, r.c, [o.conns[r.c] EXCEPT !.gone = TRUE, !.alive = FALSE]), {})
@@ -427,7 +428,8 @@ H_mreq(r) ==
                  ELSE {}
         isRefetch == r.t = "get" /\ Get(o.refetch, r.key, 0) > 0
         o1 == [o EXCEPT !.mqpend = Put(o.mqpend, r.k, [t |-> r.t, n |-> r.n, key |-> r.key, c |-> r.c, refetch |-> isRefetch, l |-> l, tok |-> r.tok]),
-                        !.refetch = IF isRefetch THEN Put(o.refetch, r.key, o.refetch[r.key] - 1) ELSE o.refetch]
+                        !.refetch = IF isRefetch THEN Put(o.refetch, r.key, o.refetch[r.key] - 1) ELSE o.refetch,
+                        !.resetObl = IF r.t = "get" THEN {x \in @ : x.key # r.key} ELSE @]
         \* an access request answers a pending re-check of this connection
         o2 == IF r.t = "access" /\ known
               THEN LET cl == o.conns[r.c]
@@ -468,6 +470,7 @@ H_mres(r) ==
               IN Res([o1 EXCEPT !.ann = Put(o.ann, r.nkey, a2),
                                 !.norm = Put(o.norm, r.key, r.nkey),
                                 !.keyn = Put(o.keyn, r.nkey, r.n),
+                                !.keyq = Put(o.keyq, r.nkey, r.nq),
                                 !.window = IF req.refetch THEN @ \ {r.nkey} ELSE @], {})
          [] r.t = "query" ->
               Res([o1 EXCEPT !.ann = Put(o.ann, r.key, AnnQuery(AnnOf(o.ann, r.key), r))], {})
@@ -488,7 +491,8 @@ H_mres(r) ==
 
 -----------------------------------------------------------------------------
 H_mevt(r) ==
-    CASE r.ns = "event" ->
+    CASE r.bad -> Res(o, {})   \* a malformed / inapplicable message announces nothing (C15: discarded as a whole)
+      [] r.ns = "event" ->
             LET a == AnnOf(o.ann, r.n)
                 a2 == IF a.st # "ld" THEN a
                       ELSE IF r.ev = "delete" THEN [st |-> "del", cands |-> {}]
@@ -500,9 +504,18 @@ H_mevt(r) ==
             IN Res([o EXCEPT !.ann = IF r.n \in DOMAIN o.ann THEN Put(o.ann, r.n, a2) ELSE o.ann, !.handed = h2, !.ctrig = ct2], {})
       [] r.ns = "system" /\ r.ev = "reset" ->
             LET hit == {k \in DOMAIN o.ann : o.ann[k].st = "ld" /\ Get(o.keyn, k, "") \in SeqToSet(r.matchres)}
+                \* C12: every matching cached resource (loaded, or with its first get still outstanding) must be
+                \* re-fetched by a get request sent after this reset, unless a re-fetch of it is outstanding already
+                pendInit == {o.mqpend[x].key : x \in {y \in DOMAIN o.mqpend : o.mqpend[y].t = "get" /\ ~o.mqpend[y].refetch
+                                                                             /\ o.mqpend[y].n \in SeqToSet(r.matchres)}}
+                \* a query resource is dropped from the cache as soon as its last subscriber leaves
+                subscribed(k) == \E c \in DOMAIN o.conns : o.conns[c].alive /\
+                                    \E rid \in Held(o.conns[c].direct, o.conns[c].res) : Get(o.norm, KeyOf(o.conns[c], rid), KeyOf(o.conns[c], rid)) = k
+                cached == {k \in hit \ o.window : Get(o.keyq, k, "") = "" \/ subscribed(k)}
+                obl == {[key |-> k, l |-> l] : k \in cached \cup pendInit}
                 ct2 == [n \in DOMAIN o.ctrig \cup SeqToSet(r.matchacc) |->
                            IF n \in SeqToSet(r.matchacc) THEN Append(Get(o.ctrig, n, <<>>), l) ELSE o.ctrig[n]]
-            IN Res([o EXCEPT !.window = @ \cup hit, !.ctrig = ct2], {})
+            IN Res([o EXCEPT !.window = @ \cup hit, !.ctrig = ct2, !.resetObl = @ \cup obl], {})
       [] r.ns = "system" /\ r.ev = "tokenReset" ->
             Res([o EXCEPT !.resets = Append(@, r.tids)], {})
       [] r.ns = "conn" /\ r.ev = "token" /\ r.c \in DOMAIN o.conns /\ ~r.bad ->
@@ -606,9 +619,10 @@ H_quiescent(r) ==
     ELSE
     LET live == {c \in DOMAIN o.conns : o.conns[c].alive /\ c \in SeqToSet(r.conns)}
         o1 == [o EXCEPT !.conns = [c \in DOMAIN o.conns |-> [o.conns[c] EXCEPT !.rn = r.rn @@ @]]]
-    IN Res(o1,
+    IN Res([o1 EXCEPT !.resetObl = {}],
            UNION {C01Viol(c, r) \cup C07Viol(c) \cup C08Viol(c, r) \cup C03EndViol(c) \cup C06EndViol(c, r) \cup C06TokViol(c, r) : c \in live}
-           \cup C09QViol(r) \cup C11Viol(r) \cup C19QViol)
+           \cup C09QViol(r) \cup C11Viol(r) \cup C19QViol
+           \cup {V("C12", "cached resource " \o x.key \o " matched a system reset but was never re-fetched", "") : x \in o.resetObl})
 
 H_final(r) ==
     IF o.hadStop THEN Res([o EXCEPT !.final = TRUE], StopPendingViol)   \* cache and gauges are not cleaned by Stop; not judged
@@ -635,7 +649,7 @@ H_stopped(r) ==
         \* everything the gateway held is gone with it
         conns2 == [c \in DOMAIN o.conns |-> [o.conns[c] EXCEPT !.alive = FALSE, !.gone = TRUE, !.pend = <<>>]]
     IN Res([o EXCEPT !.stop = [l |-> 0, cause |-> "", open |-> {}], !.down = TRUE, !.hadStop = TRUE, !.conns = conns2, !.mqsubs = {}, !.mqpend = <<>>,
-                     !.ann = [k \in DOMAIN o.ann |-> Unloaded], !.window = {}, !.thr = <<>>], vs)
+                     !.ann = [k \in DOMAIN o.ann |-> Unloaded], !.window = {}, !.thr = <<>>, !.resetObl = {}], vs)
 
 Handle(r) ==
     CASE r.e = "reset" -> Res(InitO(r.trace), {})
